@@ -82,6 +82,19 @@ def gen_spec(rng, wide_times=False):
     return {"s": s, "std": std, "dst": dst, "sr": sr, "st": 7200 if st is None else st, "er": er,
             "et": 7200 if et is None else et, "south": south}
 
+def gen_norule_spec(rng):
+    """a TZ string WITHOUT a rule part: dateutil's documented default applies (first Sunday of April 02:00 standard time to the last
+    Sunday of October 02:00 DAYLIGHT time, whatever the saving); the daylight offset is explicit and mostly NOT standard + 1 h"""
+    std = rng.choice([-43200, -36000, -18000, -12600, -3600, 0, 3600, 19800, 34200, 37800, 43200])
+    save = rng.choice([7200, 7200, 1800, 1800, 1200, 5400, 3600, 10800, 900])
+    dst = std + save
+    sty = rng.randint(0, 11)
+    explicit = not (save == 3600 and rng.random() < 0.5)
+    s = "AAA%sBBB%s" % (off_str(std, sty), off_str(dst, sty + 1) if explicit else "")
+    return {"s": s, "std": std, "dst": dst, "sr": ("M", 4, 1, 0), "st": 7200, "er": ("M", 10, 5, 0), "et": 7200, "south": False, "norule": True}
+
+NORULE_STRINGS = ["EST5EDT3", "EST5EDT", "LHST-10:30LHDT-11", "AAA-2BBB-2:20", "AAA3BBB1", "AAA0BBB-0030", "NST3:30NDT1:30", "CET-1CEST-3", "AAA+11BBB+09"]
+
 def spelling_family(s):
     """the spelling families of C08.tzstr_render_partial present in a generated string (for the evidence)"""
     import re
@@ -237,8 +250,10 @@ def is_ascii_model_domain(s):
 def correspondence(ctx):
     basecorr.run(ctx)
     rng = ctx.subrng("corr")
-    strings = list(FIXED_STRINGS)
+    strings = list(FIXED_STRINGS) + list(NORULE_STRINGS)
     n = ctx.budget(1500, 40000)
+    for _ in range(n // 25):
+        strings.append(gen_norule_spec(rng)["s"]); ctx.count("norule_strings")
     for _ in range(n // 3):
         gs = gen_spec(rng, wide_times=True)["s"]
         strings.append(gs)
@@ -492,7 +507,11 @@ def oracle(ctx):
     nspecs = ctx.budget(90, 3000)
     years = (2019, 2020, 2021)
     for k in range(nspecs):
-        spec = gen_spec(rng, wide_times=(k % 5 == 0))
+        spec = gen_norule_spec(rng) if k % 6 == 5 else gen_spec(rng, wide_times=(k % 5 == 0))
+        if spec.get("norule"):
+            ctx.count("specs_without_rule_part")
+            if spec["dst"] - spec["std"] != 3600:
+                ctx.count("specs_without_rule_part_saving_not_1h")
         instants = probe_instants(spec, years, 37 if k % 4 == 0 else 0)
         expect = ctx.driver(posix_query(spec, [u for u, _ in instants]))
         with warnings.catch_warnings():
@@ -627,6 +646,22 @@ KNOWN = {
 def replay(ctx, payload):
     from dateutil import tz
     c = payload["violation"]["case"]
+    if c.get("kind") in ("history", "threads"):
+        import tzshared as S
+        from dateutil import relativedelta as rd
+        print(payload["violation"]["what"])
+        s = c["s"]
+        fresh = lambda: tz.tzstr.instance(s)
+        if c.get("overflowing_rules"):
+            sp = c["spec"]
+            fresh = lambda: tz.tzrange("AAA", sp["std"], "BBB", sp["dst"],
+                                       rd.relativedelta(hours=+2, month=3, day=8, weekday=rd.SU(+1)) if not sp["south"] else rd.relativedelta(hours=+30, month=12, day=31),
+                                       rd.relativedelta(hours=+30, month=12, day=31) if not sp["south"] else rd.relativedelta(hours=-3, month=1, day=1, weekday=rd.SU(+1)))
+        with warnings.catch_warnings():
+            warnings.simplefilter("ignore")
+            if c["kind"] == "history":
+                return S.replay_history(fresh(), fresh, c["history_wire"])
+            return S.replay_threads(fresh, fresh, _range_funcs(), None, c)
     if c.get("kind") == "posix":
         sp = dict(c["spec"]); sp["s"] = c["s"]; sp["sr"] = tuple(sp["sr"]); sp["er"] = tuple(sp["er"])
         u = datetime.datetime.fromisoformat(c["utc"])
@@ -748,7 +783,7 @@ def oracle_shared(ctx):
                 hist2.append(e)
                 hist2 += _year_queries(mk(), rng.choice(range(1990, 2040)), rng, n=1)[:2]
             hist2 += hist[:10]
-            if not S.history(ctx, "tzrange-raising", zr, mk, hist2, {"zone": "tzrange", "s": s, "overflowing_rules": True}):
+            if not S.history(ctx, "tzrange-raising", zr, mk, hist2, {"zone": "tzrange", "s": s, "overflowing_rules": True, "spec": {"std": spec["std"], "dst": spec["dst"], "south": spec["south"]}}):
                 continue
             # two threads on one object, pre-empted at every statement of transitions / _isdst / _naive_isdst / utcoffset / ...
             if done > ctx.budget(2, 12):
